@@ -235,6 +235,9 @@ func genC05(r *Rng, tier string) []Case {
 			switch r.Intn(10) {
 			case 0, 1, 2, 3:
 				os = append(os, c05Opt{T: "skip", A: r.Intn(5) - 1})
+				if r.Chance(1, 14) {
+					os[len(os)-1].A = 1000 // more than any call depth: a stack object without frames
+				}
 			case 4, 5, 6:
 				os = append(os, c05Opt{T: "depth", A: Pick(r, []int{-1, 0, 1, 2, 3, 31, 32, 33, 40})})
 			case 7:
@@ -253,6 +256,13 @@ func genC05(r *Rng, tier string) []Case {
 		d := c05Desc{Ctor: r.Intn(6), Mode: r.Intn(3)}
 		d.Def = randOpts(3)
 		if d.Mode == 1 {
+			if r.Chance(1, 3) {
+				// a chain of single-option layers below: the option list of the parent context then has
+				// spare capacity, and a sibling context derived later must not show in this one
+				for l := 3 + r.Intn(3); l > 0; l-- {
+					d.Ctx = append(d.Ctx, []c05Opt{{T: "skip", A: 0}})
+				}
+			}
 			for l := r.Intn(3); l > 0; l-- {
 				d.Ctx = append(d.Ctx, randOpts(2))
 			}
@@ -638,7 +648,10 @@ func runC05(d c05Desc) Case {
 	case 1:
 		ctx := context.Background()
 		for _, layer := range d.Ctx {
-			ctx = errdef.ContextWithOptions(ctx, c05ToOpts(layer)...)
+			parent := ctx
+			ctx = errdef.ContextWithOptions(parent, c05ToOpts(layer)...)
+			// a sibling derived from the same parent AFTERWARDS carries other stack options: no effect here
+			_ = errdef.ContextWithOptions(parent, errdef.NoTrace(), errdef.StackSkip(50), errdef.StackDepth(1))
 		}
 		fac = def.With(ctx, c05ToOpts(d.Opts)...)
 	case 2:
